@@ -7,7 +7,10 @@
 // clauses can be replayed on concrete values.
 package vspec
 
-import "unsafe"
+import (
+	"reflect"
+	"unsafe"
+)
 
 // Vassert states a proof obligation inside a lemma.
 func Vassert(b bool) {
@@ -106,11 +109,25 @@ func SpareDisjoint[T any](b, v []T) bool {
 }
 
 // Frame vocabulary (only meaningful to the verifier).
-func AssignsAt[T any](p *T)     {}
-func AssignsElems[T any](s []T) {}
-func AssignsSpare[T any](s []T) {}
-func AssignsGhost[T any](v T)   {}
-func AssignsWhen(cond bool)     {}
+func AssignsAt[T any](p *T)                     {}
+func AssignsElems[T any](s []T)                 {}
+func AssignsSpare[T any](s []T)                 {}
+func AssignsGhost[T any](v T)                   {}
+func AssignsWhen(cond bool)                     {}
+func AssignsMap[K comparable, V any](m map[K]V) {}
+
+// SameMap reports whether a and b are the same map object.
+func SameMap[K comparable, V any](a, b map[K]V) bool {
+	return reflect.ValueOf(a).Pointer() == reflect.ValueOf(b).Pointer()
+}
+
+// MapHas reports whether k is a key of m.
+func MapHas[K comparable, V any](m map[K]V, k K) bool { _, ok := m[k]; return ok }
+
+// MapSame (in a postcondition): m has exactly the entries it had when the function was entered.
+// MapSameExcept: the same, except possibly for key k. (Proof-only: executed they are true.)
+func MapSame[K comparable, V any](m map[K]V) bool            { return true }
+func MapSameExcept[K comparable, V any](m map[K]V, k K) bool { return true }
 
 // Mathint is the type of mathematical (unbounded) integers in specifications. The verifier maps
 // it to the integers; executed concretely it is a machine int (specifications that need more
